@@ -391,17 +391,19 @@ include hZ hm hs
 
 /-- `ComptonProfile_Partial`.  `hU`: occupation numbers are not negative (Java keeps a profile only for `UOCCUP > 0`, the C test is `== 0`) -/
 theorem java_eq_c_ComptonProfile_Partial (hN : inI32 (T.Npz_ComptonProfiles Z.toNat))
-    (hlenU : (T.UOCCUP_ComptonProfiles Z.toNat).len = T.NShells_ComptonProfiles Z.toNat)
-    (hU : 0 ≤ (T.UOCCUP_ComptonProfiles Z.toNat).get m.toNat) :
+    (hlenU : 0 < T.NShells_ComptonProfiles Z.toNat → (T.UOCCUP_ComptonProfiles Z.toNat).len = T.NShells_ComptonProfiles Z.toNat)
+    (hU : 0 ≤ m → m < T.NShells_ComptonProfiles Z.toNat → 0 ≤ (T.UOCCUP_ComptonProfiles Z.toNat).get m.toNat) :
     JRel (JGen.ComptonProfile_Partial (JTables.ofC T) Z m pz) (Gen.ComptonProfile_Partial T Z m pz s) s := by
   jeq_start JGen.ComptonProfile_Partial Gen.ComptonProfile_Partial
   by_cases hz : Z < 1 ∨ Z > 120
   · jeq_auto
   simp (disch := omega) only [jrd_dynC]
   jeq_simp
-  simp only [jrd_jvec, rdv_def, hlenU]
   by_cases hns : T.NShells_ComptonProfiles Z.toNat < 1
-  · jeq_auto
+  · simp only [jrd_jvec, rdv_def]
+    jeq_auto
+  have hlenU := hlenU (by omega)
+  simp only [jrd_jvec, rdv_def, hlenU]
   by_cases hsh : m ≥ T.NShells_ComptonProfiles Z.toNat ∨ m < 0
   · jeq_auto
   have hns' : ¬ T.NShells_ComptonProfiles Z.toNat ≤ 0 := by omega
@@ -409,7 +411,7 @@ theorem java_eq_c_ComptonProfile_Partial (hN : inI32 (T.Npz_ComptonProfiles Z.to
   simp only [hns, hsh, hns', hin, and_self, ↓reduceIte, jbind_ok, bind_ok, jpure_eq_ok, pure_eq_ok, decide_eq_true_eq, deq_real, zero_lit, jrd_some]
   by_cases hu0 : (T.UOCCUP_ComptonProfiles Z.toNat).get m.toNat = 0
   · jeq_auto
-  have hupos : (0 : ℝ) < (T.UOCCUP_ComptonProfiles Z.toNat).get m.toNat := lt_of_le_of_ne hU (Ne.symm hu0)
+  have hupos : (0 : ℝ) < (T.UOCCUP_ComptonProfiles Z.toNat).get m.toNat := lt_of_le_of_ne (hU hin.1 hin.2) (Ne.symm hu0)
   simp only [hu0, hupos, ↓reduceIte, and_true]
   simp only [ite_some_eq_jvec]
   by_cases h29 : m < 29
